@@ -872,6 +872,8 @@ def run(ctx):
     if patched:
         # The IV is whatever the wrapper drew: it is RECORDED from the output (the property says the IV is the
         # 16-byte prefix), so the harness does not depend on which generator the module uses.
+        all_ivs = []   # every IV the wrapper drew during this run (freshness is a property of the whole history)
+
         def wrapper_case(k, msg, kind, coq=True):
             ln = len(msg)
             R.set_history([])
@@ -879,6 +881,7 @@ def run(ctx):
             if not ok:
                 return None
             iv = ct[:16] if ct is not None else b""
+            all_ivs.append(iv)
             padded = msg + bytes([16 - ln % 16]) * (16 - ln % 16)
             good_ct = ct is not None and len(ct) == 16 + len(padded) and ct[16:] == ref.cbc_enc(k, iv, padded)
             R.set_history([])
@@ -944,6 +947,17 @@ def run(ctx):
         ctx.case(("iv-fresh", "distinct"), True, "iv-fresh")
         if len(set(ivs)) != len(ivs):
             ctx.finding("iv-reused", "CryptAES.encrypt used the same IV twice within 64 consecutive calls", {"ivs": ivs})
+        # ... and over the whole history of the process: every IV drawn so far plus a long run (a pool or counter that
+        # wraps around after N calls repeats an IV only then), with several keys and instances
+        run_ivs = [CryptAES(keys[i % len(keys)]).encrypt(b"y" * (i % 5))[:16] for i in range(ctx.n(1500, 20000))]
+        hist_ivs = [v for v in all_ivs if len(v) == 16] + ivs + run_ivs
+        ctx.case(("iv-fresh", "distinct-over-history", len(hist_ivs)), True, "iv-fresh")
+        if len(set(hist_ivs)) != len(hist_ivs):
+            seen_at = {}
+            first = next((seen_at[v], i) for i, v in enumerate(hist_ivs) if v in seen_at or seen_at.setdefault(v, i) is None)
+            ctx.finding("iv-reused-over-history", f"CryptAES.encrypt: call #{first[1]} of this process drew the IV of call #{first[0]} "
+                        f"({hist_ivs[first[1]].hex()}); {len(set(hist_ivs))} distinct IVs in {len(hist_ivs)} encryptions",
+                        {"first_use": first[0], "reuse": first[1], "iv": hist_ivs[first[1]], "encryptions": len(hist_ivs)})
         saved_state = _random.getstate()
         try:
             for seed in (0, 1, 12345, "s2t"):
